@@ -430,6 +430,8 @@ def hop_stream(ctx):
                 ctx.dist(f'hops/{op}/raised:{type(e).__name__}')
                 continue
             ctx.dist(f'hops/{op}/{status}')
+            if status.startswith('E:') and len(ctx.notes) < 40:
+                ctx.notes.append(f'{op} raised {status} on {name}: wire {wire.mol_to_line(m)}'[:1500])
             if res is not None:
                 after.append((f'{name}/{op}', res))
     return after
